@@ -277,6 +277,11 @@ def run(ctx):
                                   {"envelope_len": len(eb), "auth_pad_length": pad, "alloc_hint": hint, "reply_len": len(reply), "wire": hx(wire)[:200]}, got_w[:100], "the envelope")
                     break
     ctx.compare_batch(cases, nontrivial=lambda line, impl: impl.startswith("ok"))
+    # edited structures: envelopes, key identifiers and requests packed, then taking over another value's fields one at a time
+    gen.edit_consistency(ctx, [(gen.rand_env(rng), gen.rand_env(rng)) for _ in range(6)], label="structure")
+    gen.edit_consistency(ctx, [(gen.rand_kid(rng), gen.rand_kid(rng)) for _ in range(6)], label="structure")
+    gen.edit_consistency(ctx, [(g.GetKey(gen.rand_bytes(rng, 9), None, 1, 2, 3), g.GetKey(gen.rand_bytes(rng, 20), uuid.UUID(int=5), -1, -1, -1)),
+                               (g.GetKey(b"", uuid.UUID(int=9), 7, 8, 9), g.GetKey(gen.rand_bytes(rng, 3), None, 0, 0, 0))], label="structure")
 
 
 def search(ctx, broken, disagreements):
